@@ -328,3 +328,44 @@ pub fn run_tiles(l: &[i128]) -> Vec<i128> {
         vec![-8]
     }
 }
+
+
+/// Draws on pixmaps with a dimension of 32768 or more (the 16.16 / 24.8 conversions of the rectangle and hairline code saturate
+/// there; such pixmaps are always drawn in tiles).
+/// args: w h aa kind(0 fill_rect, 1 fill_path of the same rect, 2 stroke_path of its diagonal) l t r b (whole pixels)
+/// -> [alpha at the first pixel of the rect, alpha at its last pixel]   (a panic is reported by the runner)
+pub fn run_big_draw(l: &[i128]) -> Vec<i128> {
+    if l.len() != 8 {
+        return vec![-3];
+    }
+    use tiny_skia::{FillRule, Paint, PathBuilder, Pixmap, Rect, Stroke, Transform};
+    let (w, h) = (l[0] as u32, l[1] as u32);
+    let mut pm = match Pixmap::new(w, h) {
+        Some(p) => p,
+        None => return vec![-3],
+    };
+    let mut paint = Paint::default();
+    paint.set_color_rgba8(10, 200, 30, 255);
+    paint.anti_alias = l[2] != 0;
+    let (a, t, r, b) = (l[4] as f32, l[5] as f32, l[6] as f32, l[7] as f32);
+    let rect = match Rect::from_ltrb(a, t, r, b) {
+        Some(v) => v,
+        None => return vec![-3],
+    };
+    match l[3] {
+        0 => pm.fill_rect(rect, &paint, Transform::identity(), None),
+        1 => pm.fill_path(&PathBuilder::from_rect(rect), &paint, FillRule::Winding, Transform::identity(), None),
+        _ => {
+            let mut pb = PathBuilder::new();
+            pb.move_to(a, t);
+            pb.line_to(r, b);
+            let p = pb.finish().unwrap();
+            pm.stroke_path(&p, &paint, &Stroke { width: 3.0, ..Stroke::default() }, Transform::identity(), None);
+        }
+    }
+    let px = |x: f32, y: f32| -> i128 {
+        let (x, y) = ((x as u32).min(w - 1), (y as u32).min(h - 1));
+        pm.pixel(x, y).map(|p| p.alpha() as i128).unwrap_or(-1)
+    };
+    vec![px(a, t), px(r - 1.0, b - 1.0)]
+}
